@@ -706,6 +706,9 @@ pub struct Doc {
     pub class: String,
     pub bytes: Vec<u8>,
     pub deviations: usize,
+    /// two deviations: the second deviation alone (operator, path class) and the position of the document with only the first
+    pub second: Option<(String, String)>,
+    pub parent: Option<usize>,
 }
 
 /// Long strings of multi-byte characters, shifted by 0..width ASCII letters: every byte offset below 40 falls inside a
@@ -791,7 +794,7 @@ fn cbor_mutations(content: &[u8]) -> Vec<(String, String, Vec<u8>)> {
 }
 
 fn docs_for_seed(si: usize, seed: &Seed, two: bool) -> Vec<Doc> {
-    let mut docs = vec![Doc { seed: si, op: "none".into(), class: "unchanged".into(), bytes: seed.doc.clone(), deviations: 0 }];
+    let mut docs = vec![Doc { seed: si, op: "none".into(), class: "unchanged".into(), bytes: seed.doc.clone(), deviations: 0, second: None, parent: None }];
     if seed.name.starts_with("include:") {
         return docs;
     }
@@ -801,18 +804,19 @@ fn docs_for_seed(si: usize, seed: &Seed, two: bool) -> Vec<Doc> {
             if let Some(j) = J::parse(&text) {
                 let ids: Vec<String> = vec!["a0".into(), "a1".into(), "r0".into(), "s0".into(), "D0".into(), "k0".into(), "!A0".into(), "!A1".into(), "!D1".into()];
                 let first = json_mutations(&j, &ids);
+                let first_at = docs.len();
                 for (m, d) in &first {
-                    docs.push(Doc { seed: si, op: m.op.clone(), class: j.path_class(&m.path), bytes: d.to_string().into_bytes(), deviations: 1 });
+                    docs.push(Doc { seed: si, op: m.op.clone(), class: j.path_class(&m.path), bytes: d.to_string().into_bytes(), deviations: 1, second: None, parent: None });
                 }
                 if two {
                     // second deviation: structural operators only (delete / duplicate / swap / a small retype menu), applied to every first-level mutant
-                    for (m1, d1) in &first {
+                    for (k1, (m1, d1)) in first.iter().enumerate() {
                         if !(m1.op == "delete" || m1.op == "duplicate" || m1.op.starts_with("retype:tempid") || m1.op == "redirect-reference") {
                             continue;
                         }
                         for (m2, d2) in json_mutations(d1, &ids) {
                             if m2.op == "delete" || m2.op == "swap-with-next" || m2.op.starts_with("retype:tempid") || m2.op == "redirect-reference" || m2.op == "retype:null" {
-                                docs.push(Doc { seed: si, op: format!("{}+{}", m1.op, m2.op), class: format!("{}+{}", j.path_class(&m1.path), d1.path_class(&m2.path)), bytes: d2.to_string().into_bytes(), deviations: 2 });
+                                docs.push(Doc { seed: si, op: format!("{}+{}", m1.op, m2.op), class: format!("{}+{}", j.path_class(&m1.path), d1.path_class(&m2.path)), bytes: d2.to_string().into_bytes(), deviations: 2, second: Some((m2.op.clone(), d1.path_class(&m2.path))), parent: Some(first_at + k1) });
                             }
                         }
                     }
@@ -821,12 +825,12 @@ fn docs_for_seed(si: usize, seed: &Seed, two: bool) -> Vec<Doc> {
         }
         Loader::StoreCsv => {
             for (op, class, bytes) in csv_mutations(&seed.doc) {
-                docs.push(Doc { seed: si, op, class, bytes, deviations: 1 });
+                docs.push(Doc { seed: si, op, class, bytes, deviations: 1, second: None, parent: None });
             }
         }
         Loader::StoreCbor => {
             for (op, class, bytes) in cbor_mutations(&seed.doc) {
-                docs.push(Doc { seed: si, op, class, bytes, deviations: 1 });
+                docs.push(Doc { seed: si, op, class, bytes, deviations: 1, second: None, parent: None });
             }
         }
     }
@@ -959,22 +963,36 @@ pub fn run(rep: &Reporter) -> Coverage {
     let seeds = build_seeds(&dir, rep.tier);
     // documents
     let mut docs: Vec<Doc> = Vec::new();
-    let mut smallest: Vec<(usize, usize)> = seeds.iter().enumerate().filter(|(_, s)| matches!(s.loader, Loader::StoreJson | Loader::AnnotateFromFile)).map(|(i, s)| (s.doc.len(), i)).collect();
+    let mut smallest: Vec<(usize, usize)> = seeds.iter().enumerate().filter(|(_, s)| matches!(s.loader, Loader::StoreJson | Loader::AnnotateFromFile) && !s.name.starts_with("include:")).map(|(i, s)| (s.doc.len(), i)).collect();
     smallest.sort();
-    let two_dev: Vec<usize> = if rep.tier == Tier::Thorough { smallest.iter().take(2).map(|x| x.1).collect() } else { vec![] };
+    // two deviations: quick on the smallest JSON seed, thorough on every JSON seed
+    let two_dev: Vec<usize> = smallest.iter().take(rep.tier.pick(1, usize::MAX)).map(|x| x.1).collect();
     for (si, seed) in seeds.iter().enumerate() {
-        docs.extend(docs_for_seed(si, seed, two_dev.contains(&si)));
+        let at = docs.len();
+        let mut more = docs_for_seed(si, seed, two_dev.contains(&si));
+        for d in more.iter_mut() {
+            d.parent = d.parent.map(|p| p + at);
+        }
+        docs.extend(more);
     }
     let ndocs = docs.len();
+    // verdict of every document with at most one deviation (two-deviation documents are judged against their parent)
+    let first_verdicts: Vec<std::sync::OnceLock<String>> = (0..ndocs).map(|_| std::sync::OnceLock::new()).collect();
+    let explained = AtomicU64::new(0);
     // worker pool
     let nworkers = 16usize;
-    let queue = Mutex::new(docs.into_iter().enumerate().collect::<Vec<_>>());
+    let (phase2, phase1): (Vec<(usize, Doc)>, Vec<(usize, Doc)>) = docs.into_iter().enumerate().partition(|(_, d)| d.deviations >= 2);
+    let queues = [Mutex::new(phase1), Mutex::new(phase2)];
+    let barrier = std::sync::Barrier::new(nworkers);
     let verdict_counts: Mutex<std::collections::BTreeMap<String, u64>> = Mutex::new(Default::default());
     let done = AtomicU64::new(0);
     let limit = Duration::from_secs(5);
     std::thread::scope(|scope| {
         for wi in 0..nworkers {
-            let queue = &queue;
+            let queues = &queues;
+            let barrier = &barrier;
+            let first_verdicts = &first_verdicts;
+            let explained = &explained;
             let seeds = &seeds;
             let dir = &dir;
             let verdict_counts = &verdict_counts;
@@ -982,8 +1000,12 @@ pub fn run(rep: &Reporter) -> Coverage {
             scope.spawn(move || {
                 let mut w = spawn_worker();
                 let wdir = format!("{}/w{}", dir, wi);
+                for phase in 0..2 {
+                if phase == 1 {
+                    barrier.wait();
+                }
                 loop {
-                    let item = queue.lock().unwrap().pop();
+                    let item = queues[phase].lock().unwrap().pop();
                     let (idx, doc) = match item {
                         Some(x) => x,
                         None => break,
@@ -1004,6 +1026,13 @@ pub fn run(rep: &Reporter) -> Coverage {
                     let vclass = verdict.split(':').next().unwrap_or("").to_string();
                     *verdict_counts.lock().unwrap().entry(vclass.clone()).or_insert(0) += 1;
                     let bad = !(verdict == "ok" || verdict == "err");
+                    if doc.deviations < 2 {
+                        let _ = first_verdicts[idx].set(verdict.clone());
+                    } else if bad && doc.parent.and_then(|p| first_verdicts[p].get()) == Some(&verdict) {
+                        // the first deviation alone already gives this verdict: reported there
+                        explained.fetch_add(1, Ordering::Relaxed);
+                        continue;
+                    }
                     // the unchanged seed must load
                     let seed_broken = doc.deviations == 0 && verdict != "ok" && !seed.name.starts_with("include:");
                     if bad || seed_broken {
@@ -1014,6 +1043,9 @@ pub fn run(rep: &Reporter) -> Coverage {
                         let sig = if seed.loader == Loader::StoreCbor {
                             let kind = if doc.op.starts_with("bitflip") { "bitflip" } else if doc.op.starts_with("byte:=") { "byte-set" } else { doc.op.as_str() };
                             format!("{}|{}|{}|{}", seed.loader.name(), seedclass, kind, symptom)
+                        } else if let Some((op2, class2)) = &doc.second {
+                            // judged as a failure of the second deviation (same class as when that deviation is the only one)
+                            format!("{}|{}|{}|{}|{}", seed.loader.name(), seedclass, op2, class2, symptom)
                         } else {
                             format!("{}|{}|{}|{}|{}", seed.loader.name(), seedclass, doc.op, doc.class, symptom)
                         };
@@ -1035,6 +1067,7 @@ pub fn run(rep: &Reporter) -> Coverage {
                         );
                     }
                 }
+                }
                 let _ = w.child.kill();
                 let _ = w.child.wait();
             });
@@ -1048,8 +1081,9 @@ pub fn run(rep: &Reporter) -> Coverage {
     cov.transitions = done.load(Ordering::Relaxed) + nstr;
     cov.evaluations = cov.transitions;
     cov.traces_validated = cov.transitions;
+    cov.extra.insert("two_deviation_failures_already_given_by_the_first_deviation_alone".into(), json!(explained.load(Ordering::Relaxed)));
     cov.distinct_nontrivial = counts.get("ok").copied().unwrap_or(0) + counts.get("inconsistent").copied().unwrap_or(0);
-    cov.rule = "seed documents are produced by the library itself from 4 histories (text, annotation selectors with gaps and temporary ids, metadata selectors, complex selectors) as STAM JSON store, annotation array (annotate_from_file), dataset file, STAM CSV files and CBOR; every single deviation (thorough: every pair on the two smallest JSON seeds) is generated: JSON on an order-preserving tree: delete / duplicate / swap-with-next of every node, retype of every node to each of 15 values (null, true, numbers incl. 2^63 and 1e308, empty string/array/object, temporary ids up to 2^64-1), @type renamed to each other type, every string redirected to every other id, every selector wrapped in a complex selector; CSV: every cell := each of 18 values (incl. three long strings of 2-, 3- and 4-byte characters shifted by one letter), row delete/duplicate, column drop; CBOR: every truncation, every single bit flip, every byte := 5 values; each document is loaded by the real loader in a worker process (allocation cap 1 GiB live / 256 MiB per request, 5 s wall limit); verdict must be Err or a store that passes the C01-C03 consistency checks; plus all strings of length <= 3 over 14 symbols, nine long multi-byte strings (every byte offset below 40 inside a character in one of them) and two 100-character strings through Cursor/Type/DataFormat/SelectorKind/Offset parsers; non-trivial = documents that loaded".into();
+    cov.rule = "seed documents are produced by the library itself from 4 histories (text, annotation selectors with gaps and temporary ids, metadata selectors, complex selectors) as STAM JSON store, annotation array (annotate_from_file), dataset file, STAM CSV files and CBOR; every single deviation is generated, and every pair of a structural first deviation (delete / duplicate / temporary-id retype / redirected reference) with a second one (delete / swap / temporary-id retype / redirect / null) on the smallest JSON seed (thorough: on every JSON seed): JSON on an order-preserving tree: delete / duplicate / swap-with-next of every node, retype of every node to each of 15 values (null, true, numbers incl. 2^63 and 1e308, empty string/array/object, temporary ids up to 2^64-1), @type renamed to each other type, every string redirected to every other id, every selector wrapped in a complex selector; CSV: every cell := each of 18 values (incl. three long strings of 2-, 3- and 4-byte characters shifted by one letter), row delete/duplicate, column drop; CBOR: every truncation, every single bit flip, every byte := 5 values; a two-deviation document that fails exactly like its first deviation alone is counted there, otherwise it is classed by its second deviation; each document is loaded by the real loader in a worker process (allocation cap 1 GiB live / 256 MiB per request, 5 s wall limit); verdict must be Err or a store that passes the C01-C03 consistency checks; plus all strings of length <= 3 over 14 symbols, nine long multi-byte strings (every byte offset below 40 inside a character in one of them) and two 100-character strings through Cursor/Type/DataFormat/SelectorKind/Offset parsers; non-trivial = documents that loaded".into();
     cov.samples = vec![
         json!({"seed": "json:text", "mutation": "retype:tempid-4e9", "path": ".annotations[].@id"}),
         json!({"seed": "cbor:text", "mutation": "bitflip3", "path": "tenth4"}),
